@@ -875,7 +875,22 @@ impl World {
                 bump(&self.stats.blocks_alloc);
                 self.event(ev::BLOCK, 0, base as u64);
                 let mut b = self.blocks.borrow_mut();
-                // a released block may be reallocated at the same address
+                // memory of released blocks may be handed out again, at the same or at an
+                // overlapping address: forget the stale records this allocation covers
+                let stale: Vec<usize> = b.range(base..base + size).filter(|(_, (_, live))| !*live).map(|(k, _)| *k).collect();
+                for k in stale {
+                    b.remove(&k);
+                }
+                if let Some((pb, (ps, live))) = b.range(..base).next_back().map(|(k, v)| (*k, *v)) {
+                    if pb + ps > base {
+                        if live {
+                            drop(b);
+                            self.violation("C03", "overlapping_blocks", format!("block {base:#x} allocated inside live block {pb:#x}"));
+                            return;
+                        }
+                        b.remove(&pb);
+                    }
+                }
                 b.insert(base, (size, true));
             }
             Probe::BlockRelease { base } => {
